@@ -77,6 +77,8 @@ def read_manifest(path):
     import gemato.manifest as gm
     from gemato.compression import open_potentially_compressed_path
     m = gm.ManifestFile()
+    if os.path.exists(path) and not os.path.isfile(path) and not os.path.isdir(path):
+        raise OSError('not a regular file: ' + path)       # opening a FIFO would block
     with open_potentially_compressed_path(path, 'r', encoding='utf8') as f:
         m.load(f, verify_openpgp=False)
     return m
